@@ -55,6 +55,11 @@ def call(ev: dict) -> dict:
             w = a["width"]
             A = np.array(a["A"], dtype=int).reshape(len(a["A"]), w)
             B = np.array(a["B"], dtype=int).reshape(len(a["B"]), w)
+            # set algebra on rows depends only on which rows are equal: an injective relabelling of the entries is a
+            # presentation of the same question (rotated with the array layout): negative entries, huge entries
+            relabel = {"default": (1, 0), "swapped": (1, -2), "strided": (10 ** 9 + 7, -3), "grown": (65536, 0)}[bind.get_layout()]
+            A, B = A * relabel[0] + relabel[1], B * relabel[0] + relabel[1]
+            A, B = bind.lay(A), bind.lay(B)
             if op == "ismember":
                 m, loc = u.tt_ismember_rows(A, B)
                 return {"st": "ok", "matched": [bool(x) for x in m], "loc": [int(x) for x in loc]}
@@ -65,9 +70,15 @@ def call(ev: dict) -> dict:
             r = np.asarray(u.tt_union_rows(A, B))
             if r.size == 0:
                 return {"st": "ok", "rows": []}
-            return {"st": "ok", "rows": [[bind.num(x) for x in row] for row in r.reshape(-1, w)]}
+            back = (r.reshape(-1, w) - relabel[1]) // relabel[0]
+            if not np.array_equal(back * relabel[0] + relabel[1], r.reshape(-1, w)):
+                return {"st": "union-contains-a-row-of-neither-operand"}
+            return {"st": "ok", "rows": [[bind.num(x) for x in row] for row in back]}
         if op == "khatrirao":
-            mats = [np.array(m, dtype=float) for m in a["mats"]]
+            # element types of the factors (integer-valued entries): all float, or mixed with a narrower type first / last
+            kinds = {"default": [float], "swapped": [np.int64, float], "strided": [float, np.int32], "grown": [np.int16, np.int64, float]}[bind.get_layout()]
+            mats = [bind.lay(np.array(m, dtype=(kinds[j % len(kinds)] if np.all(np.array(m) == np.round(np.array(m))) else float)))
+                    for j, m in enumerate(a["mats"])]
             r = ttb.khatrirao(*mats, reverse=bool(a["reverse"]))
             return {"st": "ok", "m": bind.matrix(r)}
     except bind.Inexact as e:
